@@ -22,7 +22,7 @@ RULE_TEXT = ('runs = deterministic sweep over defect classes (15) x every varian
              'process spawns in all five phases and a sandbox; distinct = (defect class, variant, phase, position '
              'class, mode/command).')
 REACH_PROBES = ['class_syntax', 'class_unknown_instruction', 'class_undefined_symbol', 'class_defined_later',
-                'class_wrong_type', 'class_illegal_relativity', 'class_missing_home_file', 'class_bad_integer',
+                'class_wrong_type', 'class_illegal_relativity', 'class_missing_home_file', 'class_missing_file_absolute_path', 'class_bad_integer',
                 'class_bad_integer_expression', 'class_bad_regex', 'class_act_syntax', 'class_stub_validation',
                 'class_stub_symbols', 'class_none_symbol_cmd', 'last_line_of_cleanup', 'mode_normal', 'mode_keep',
                 'mode_act', 'cmd_symbol', 'cmd_symbol_name', 'control_ok']
@@ -51,6 +51,14 @@ DEFECTS = {
                           ('file f.txt = -contents-of -rel-home nofile', ALLP), ('run nofile-exe', ALLP),
                           ('stdin = -contents-of nofile.txt', ('setup',)),
                           ('run -python -existing-file nofile.py', ALLP)],
+    # a missing file named by an absolute path (literally, or through a path symbol with an absolute value): it does not
+    # depend on the sandbox, and is checked before execution just like a missing file in a home directory
+    'missing_file_absolute_path': [('copy /no/such/dir/file.txt', ALLP), ('run /no/such/dir/prog', ALLP),
+                                   ('% p -existing-file /no/such/dir/file.txt', ALLP),
+                                   ('file f.txt = -contents-of /no/such/dir/file.txt', ALLP),
+                                   ('run -rel ABSP prog', ALLP), ('copy @[ABSP]@/file.txt', ALLP),
+                                   ('stdin = -contents-of /no/such/dir/file.txt', ('setup',)),
+                                   ('stdout equals -contents-of /no/such/dir/file.txt', ('assert',))],
     'bad_integer': [('timeout = -1', ALLP), ('timeout = abc', ALLP), ('timeout = 1.5', ALLP),
                     ('exit-code == abc', ('assert',)), ('stdout num-lines == 1.5', ('assert',))],
     'bad_integer_expression': [('timeout = 1//0', ALLP), ('timeout = 5 % 0', ALLP), ('exit-code == 1//0', ('assert',))],
@@ -61,7 +69,7 @@ DEFECTS = {
 # the symbol definitions, each followed by a *legal* reference to the symbol: a defective reference inserted later is
 # then never the first reference to its symbol (a validator that checks only the first reference would miss it)
 BASE_DEFS = ['def string STRSYM = s', 'def list LISTSYM = a b', 'def path HOMEP = -rel-home hp',
-             'def path HOMEP2 = @[HOMEP]@/sub',
+             'def path HOMEP2 = @[HOMEP]@/sub', 'def path ABSP = /no/such/dir',
              'file legal-ref-1.txt = "@[STRSYM]@ @[LISTSYM]@"',
              'copy @[HOMEP]@/sub/keep.txt legal-ref-2.txt',
              'copy @[HOMEP2]@/keep.txt legal-ref-3.txt']
